@@ -8,11 +8,11 @@ package internal
 //@   requires[C04.no_nil_elements] forall j Int :: 0 <= j && j < len(kvs) ==> kvs[j] != nil
 //@   modifies Mdom.map_Lstring_R_L_Rstring Mlen.map_Lstring_R_L_Rstring Mval.map_Lstring_R_L_Rstring
 //@   ensures[C04.md_or_error] (result.1 == nil) != (result.0 == nil)
-//@   loop 0 invariant[C04.undecodable_is_error] forall j Int :: 0 <= j && j <= rangeindex ==> !strSuffix(lower(kvs[j].Key), "-bin") || b64url_ok(kvs[j].Value)
+//@   loop 0 invariant[C04.undecodable_is_error C12.undecodable_is_error C13.undecodable_is_error] forall j Int :: 0 <= j && j <= rangeindex ==> !strSuffix(lower(kvs[j].Key), "-bin") || b64url_ok(kvs[j].Value)
 //@   loop 0 invariant[C04.keys_lowercased_values_appended] md != nil && (forall j Int :: 0 <= j && j <= rangeindex ==> lower(kvs[j].Key) in md && len(md[lower(kvs[j].Key)]) >= 1)
 //@   atcall[C04.keys_lowercased_values_appended] builtin append : k == lower(h.Key) && (k in md ==> arg0 == md[k]) && (!(k in md) ==> arg0 == nil) && len(arg1) == 1 && arg1[0] == ite(strSuffix(k, "-bin"), b64url_dec(h.Value), h.Value)
-//@   atcall[C04.binary_values_decoded_or_rejected] (*encoding/base64.Encoding).DecodeString : arg1 == h.Value && strSuffix(lower(h.Key), "-bin")
-//@   ensures[C04.undecodable_is_error] (exists j Int :: 0 <= j && j < len(kvs) && strSuffix(lower(kvs[j].Key), "-bin") && !b64url_ok(kvs[j].Value)) ==> result.1 != nil
+//@   atcall[C04.binary_values_decoded_or_rejected C12.binary_values_decoded_or_rejected C13.binary_values_decoded_or_rejected] (*encoding/base64.Encoding).DecodeString : arg1 == h.Value && strSuffix(lower(h.Key), "-bin")
+//@   ensures[C04.undecodable_is_error C12.undecodable_is_error C13.undecodable_is_error] (exists j Int :: 0 <= j && j < len(kvs) && strSuffix(lower(kvs[j].Key), "-bin") && !b64url_ok(kvs[j].Value)) ==> result.1 != nil
 //@   ensures[C04.decodable_is_accepted] (forall j Int :: 0 <= j && j < len(kvs) ==> !strSuffix(lower(kvs[j].Key), "-bin") || b64url_ok(kvs[j].Value)) ==> result.1 == nil
 
 //@ func internal.ToKeyValue
